@@ -384,6 +384,19 @@ Definition tile_count (ly : layer) (q : mreq) : option Z :=
     end
   end.
 
+(* src_bbox of get_affected_tiles for the query that reaches _image: the rectangle of the affected tiles (of the one
+   tile a tiled=true request addresses) *)
+Definition tile_source (ly : layer) (q : mreq) : option bbox :=
+  if (mw q =? 0) || (mh q =? 0) then None else
+  match affected_level (lg ly) (mb q) (mw q) (mh q) with
+  | None => None
+  | Some l =>
+    match affected_level_tiles (lg ly) (mb q) l with
+    | InvalidBBOX => None
+    | Affected src _ _ _ => Some src
+    end
+  end.
+
 (* CacheMapLayer.get_map on the query that WMSServer.map hands to the layer *)
 Definition layer_map (ly : layer) (cached : list coord) (q : mreq) : answer * list effect :=
   if mtiled q && negb (mfmt q =? lfmt ly) then (Err BadTileFormat, [])   (* _check_tiled compares with the tile manager format: "mixed" for a mixed cache *)
